@@ -33,6 +33,7 @@ type peerClient struct {
 	closedAt         time.Duration
 	captured         [][]byte // datagrams of this client seen on the wire (for re-addressing / staleness)
 	reconnectPending bool
+	oldSrv           *Endpoint // server-side session of the previous conversation, until replaced
 	target           int64
 	oobTags          map[uint64]bool
 }
@@ -113,6 +114,27 @@ func scenPeers(r *Run) {
 		base(p)
 		if c := pw.byAddr[p.Src.addrStr]; c != nil && p.Dst == w.LConn.addrStr && len(c.captured) < 64 && !p.Post {
 			c.captured = append(c.captured, append([]byte(nil), p.Data...))
+		}
+	}
+
+	// When the first datagram of a client's new conversation reaches the listener,
+	// the listener closes the old server-side session itself. What that session
+	// emits from then on (its final flush) exists or not by the runtime's choice,
+	// like after any Close: it is classified as post-close from this instant.
+	w.Net.OnDeliver = func(to *SimConn, from string, data []byte) {
+		if to != w.LConn {
+			return
+		}
+		c := pw.byAddr[from]
+		if c == nil || c.oldSrv == nil || c.oldSrv.CloseInvoked {
+			return
+		}
+		f, err := DecodeFrame(w.Ref, w.FecD > 0 && w.FecP > 0, data)
+		if err != nil || f.OOB {
+			return
+		}
+		if len(f.Segs) > 0 && f.Segs[0].Conv == c.conv && f.Segs[0].Sn == 0 {
+			c.oldSrv.CloseInvoked = true
 		}
 	}
 
@@ -442,6 +464,7 @@ func (pw *peersWorld) reconnect(x *peerClient) {
 		x.reconnectPending = true
 		x.target = int64(1 + t.Skewed(ps, 0, 10000))
 		oldSrv := x.srv
+		x.oldSrv = oldSrv
 		// The new conversation starts only after every datagram of the old one has
 		// left the network: a delayed duplicate of the old conversation's first
 		// packet (sn 0) would itself "start a new conversation" - the protocol has
